@@ -223,13 +223,13 @@ def run(ctx, rep) -> None:
     rep.rule("C09.3", "load path: missing keys raise, loops over the current state are not left early, silent skips are reported")
     rep.rule("C09.4", "leaf-less entries are dropped by the writer and not required by the reader")
     rep.rule("C09.5", "param-group key and saved/restored group fields")
-    persistence(ctx, rep, "C09.1")
-    allocations_stored(ctx, rep, "C09.2")
+    rep.attempt("persistence", persistence, ctx, rep, "C09.1")
+    rep.attempt("allocations_stored", allocations_stored, ctx, rep, "C09.2")
     from .c03 import _Proxy
 
-    _step_counter(ctx, _Proxy(rep, "C01.4", "C09.2"))
-    loop_var_leak(ctx, rep, "C09.2", [f"{DS}.{n}" for n in ("_instantiate_steps", "_instantiate_momentum", "_instantiate_filtered_grads")])
-    load_strictness(ctx, rep, "C09.3")
-    leafless_not_required(ctx, rep, "C09.4")
-    group_fields(ctx, rep, "C09.5")
+    rep.attempt("_step_counter", _step_counter, ctx, _Proxy(rep, "C01.4", "C09.2"))
+    rep.attempt("loop_var_leak", loop_var_leak, ctx, rep, "C09.2", [f"{DS}.{n}" for n in ("_instantiate_steps", "_instantiate_momentum", "_instantiate_filtered_grads")])
+    rep.attempt("load_strictness", load_strictness, ctx, rep, "C09.3")
+    rep.attempt("leafless_not_required", leafless_not_required, ctx, rep, "C09.4")
+    rep.attempt("group_fields", group_fields, ctx, rep, "C09.5")
     rep.assume("bit-for-bit trajectory equality after resume is NOT decided (needs execution); the rules decide that what the continuation depends on is saved and that loading is strict")
